@@ -488,6 +488,57 @@ def folded_length_source(ctx):
                 ctx.event("folded_length_resolved")
 
 
+def terminator_reappended(ctx):
+    """Dumping `x[]` writes every element it is given and then the terminator -- also when the list is empty, ends in a
+    zero element or holds one (such a list does not read back as itself, but what is written is still elements +
+    terminator), for integer, wide, LEB128, pointer, enum and structure elements, as a member and directly."""
+    def leb(v):
+        out = bytearray()
+        while True:
+            b = v & 0x7F
+            v >>= 7
+            out.append(b | (0x80 if v else 0))
+            if not v:
+                return bytes(out)
+
+    text = ("enum E : uint16 { Z = 0, A = 1, B = 2 };\nstruct P { uint8 a; uint16 b; };\n"
+            "struct S { uint16 w[]; uint24 t3[]; uleb128 l[]; uint32 *p[]; E e[]; P s[]; uint64 q[]; uint8 tail; };")
+    lists = [[], [0], [3, 0], [0, 5], [1, 2], [7, 0, 0], [1, 0, 2]]
+    for endian in "<>":
+        bo = "little" if endian == "<" else "big"
+        for compiled in (True, False):
+            try:
+                cs = lib.load(text, endian, False, compiled, "uint32")
+            except Exception as e:  # noqa: BLE001
+                ctx.violation("terminator", f"terminator-workload-load-fails:{type(e).__name__}", {"text": text, "error": lib.exc_sig(e)})
+                continue
+            enc = {"w": lambda v: v.to_bytes(2, bo), "t3": lambda v: v.to_bytes(3, bo), "l": leb, "p": lambda v: v.to_bytes(4, bo),
+                   "e": lambda v: v.to_bytes(2, bo), "s": lambda v: bytes([v]) + (v * 3).to_bytes(2, bo),
+                   "q": lambda v: v.to_bytes(8, bo)}   # (in the order of the members)
+            for name in enc:
+                for lst in lists:
+                    ctx.evaluation(("terminator", endian, compiled, name, repr(lst)))
+                    ctx.cell("terminator-reappended")
+                    det = {"text": text, "endian": endian, "compiled": compiled, "member": name, "list": lst, "workload": "terminator"}
+                    vals = [cs.P(a=v, b=v * 3) for v in lst] if name == "s" else ([cs.E(v) for v in lst] if name == "e" else list(lst))
+                    want_member = b"".join(enc[name](v) for v in lst) + enc[name](0)
+                    try:
+                        kw = {name: vals}
+                        got = cs.S(tail=0xAA, **kw).dumps()
+                        before = b"".join(enc[n](0) for n in list(enc)[:list(enc).index(name)])
+                        after = b"".join(enc[n](0) for n in list(enc)[list(enc).index(name) + 1:])
+                        want = before + want_member + after + b"\xAA"
+                        direct = cs.S.fields[name].type.dumps(vals)
+                    except Exception as e:  # noqa: BLE001
+                        ctx.violation("terminator", f"dump-of-a-null-terminated-array-raises:{type(e).__name__}", dict(det, error=lib.exc_sig(e)))
+                        continue
+                    if got != want or direct != want_member:
+                        ctx.violation("terminator", "null-terminated-array-not-written-as-elements-plus-terminator",
+                                      dict(det, got=got.hex(), want=want.hex(), direct=direct.hex(), want_direct=want_member.hex()))
+                    else:
+                        ctx.event("terminators_checked")
+
+
 def run(ctx):
     if ctx.shard == 0:
         direct_use(ctx, ctx.rng("direct"))
@@ -497,6 +548,8 @@ def run(ctx):
         big_operand_lengths(ctx)
         enum_counts(ctx)
         void_arrays(ctx)
+    if ctx.shard == 1:
+        terminator_reappended(ctx)
     # the element kind x length form matrix, every cell on every run
     cells = []
     tmp = gen.Gen(ctx.rng("kinds"))
@@ -539,6 +592,8 @@ def replay(ctx, detail):
         print("record:", detail)
         if detail.get("workload") == "folded-length":
             folded_length_source(ctx)
+        elif detail.get("workload") == "terminator":
+            terminator_reappended(ctx)
         elif "text" in detail and "#define" in detail["text"]:
             shadowing(ctx)
         else:
